@@ -20,13 +20,17 @@ def c13_jobs(tier):
 
 
 def gate_job(prefix, tool, args=0, tier='quick'):
-    nm = '%s_gate_%s%s' % (prefix, 'nano_virt' if tool == 1 else 'nanoc', ('_args%d' % args) if tool == 1 else '')
+    nm = '%s_gate_%s%s' % (prefix, {1: 'nano_virt', 2: 'nanoc', 3: 'nano_vm'}[tool], ('_args%d' % args) if tool == 1 else '')
     return Job(name=nm, harness='drv_gate.c', sources=[], defines={'TOOL': tool, 'ARGS': args}, unwind=8, gen_bodies=True, unwinding_assertions=(tool == 1),
                flags=['--slice-formula', '--no-standard-checks'], timeout=600, replay='none', must_witness=['rejected', 'accepted'], group='driver_gating', pointer_overflow=False,
-               desc={'tool': 'nano_virt main' if tool == 1 else 'nanoc compile_file', 'argv': {0: '--run', 1: '--emit-nvm -o out.nvm', 2: '-o out.bin (native wrapper)', 3: '-o out.nvm --run'}.get(args) if tool == 1 else 'in.nano -o out.bin',
+               desc={'tool': {1: 'nano_virt main', 2: 'nanoc compile_file', 3: 'nano_vm run_standalone'}[tool], 'argv': {0: '--run', 1: '--emit-nvm -o out.nvm', 2: '-o out.bin (native wrapper)', 3: '-o out.nvm --run'}.get(args) if tool == 1 else 'in.nano -o out.bin',
                      'symbolic': 'outcome of every phase (lexer, parser, imports, type check, shadow tests, transpile/codegen, serialize, cc/system, fopen, VM run), option flags'})
 
 def gate_jobs(prefix, tier):
     return [gate_job(prefix, 1, a, tier) for a in (0, 1, 2, 3)] + [gate_job(prefix, 2, 0, tier)]
 
 
+
+
+def exit_status_jobs(prefix, tier):
+    return [gate_job(prefix, 3, 0, tier), gate_job(prefix, 1, 0, tier), gate_job(prefix, 1, 3, tier)]
